@@ -162,7 +162,8 @@ def _oracle(out, site, case, res, ref):
         cleank = ~ref['amb_k'] & (ref['cnt_lo'].sum(axis=1) > 0)
         for ip, ell in enumerate(case['poles']):
             scale = (2 * ell + 1) * (1.0 if ell == 0 else 4.0 ** ((ell + 1) // 2))
-            tolp = 64 * EPS32 * scale * ref['abs'].sum(axis=1) / np.maximum(ref['cnt_lo'].sum(axis=1), 1) + 1e-30
+            cntk = np.maximum(ref['cnt_lo'].sum(axis=1), 1)
+            tolp = 64 * EPS32 * scale * ref['abs'].sum(axis=1) / cntk * np.maximum(1.0, np.sqrt(cntk) / 4) + 1e-30
             dp = np.abs(pmean[ip].astype(np.float64) - ref['poles'][ip])
             badp = cleank & ~(dp <= tolp)
             if badp.any():
@@ -263,12 +264,11 @@ def run(case):
         violation(out, 'counts-depend-on-threads', site, {'nthread': case['nthread'], 'total_1': int(c1.sum()),
                                                           'total_T': int(cT.sum())})
         return out
-    for a, b in zip(res1, res):
-        a, b = np.asarray(a), np.asarray(b)
-        if a.dtype.kind == 'f' and not np.allclose(a, b, rtol=2e-5, atol=1e-6):
-            violation(out, 'values-depend-on-threads', site, {'nthread': case['nthread'],
-                                                             'max_diff': float(np.abs(a - b).max())})
-            return out
+    # (float outputs: each thread count is held to the reference within the rounding bound of a float32 sum, which
+    # grows with the number of modes in the bin; a fixed bound between two thread counts was a false alarm at n=32)
+    _oracle(out, site + '[sim,nthread=1]', case, res1, ref)
+    if out['violations']:
+        return out
     # ---- history: the thread count is process-global state (numba.set_num_threads); a call made after a
     # call with another thread count, in the same session, must give the same answer as a fresh one
     prevT = case.get('prev_nthread')
@@ -286,11 +286,9 @@ def run(case):
         if not np.array_equal(np.asarray(res2[1]), cT):
             violation(out, 'counts-depend-on-previous-call', site, {'previous_nthread': prevT, 'nthread': case['nthread']})
             return out
-        for a, b in zip(res, res2):
-            a, b = np.asarray(a), np.asarray(b)
-            if a.dtype.kind == 'f' and not np.allclose(a, b, rtol=2e-5, atol=1e-6):
-                violation(out, 'values-depend-on-previous-call', site, {'previous_nthread': prevT, 'nthread': case['nthread']})
-                return out
+        _oracle(out, site + '[sim]:after-call-with-other-thread-count', case, res2, ref)
+        if out['violations']:
+            return out
         bump(out['faults'], 'global-thread-count-changed-between-calls')
     out['events'].append([site, n, case['nthread'], int(cT.sum()), summ['regions'], summ['switches']])
     # ---- the same binning as reported by the estimator built on it (calc_pk_from_deltak): the per-bin means of
